@@ -452,7 +452,7 @@ class EvalMixin(InterpBase):
                 if node.func.attr == "__init__":
                     return None
                 raise Unsupported(f"super().{node.func.attr} not found")
-            return self.call_function(fn, [recv] + args, kwargs, fr)
+            return self.call_function(fn, [recv] + args, kwargs, fr, static=True)
         f = self.ev(node.func, fr)
         args, kwargs = self.eval_args(node, fr)
         return self.call_value(f, args, kwargs, fr, node)
@@ -677,8 +677,8 @@ class EvalMixin(InterpBase):
             return None
         return c
 
-    def call_function(self, info, args, kwargs, fr, force_inline=False):
-        recv = args[0] if info.cls is not None and args and "staticmethod" not in info.decorators else None
+    def call_function(self, info, args, kwargs, fr, force_inline=False, static=False):
+        recv = args[0] if info.cls is not None and args and "staticmethod" not in info.decorators and not static else None
         con = None if force_inline else self.contract_for(info, recv)
         if con is not None and not (self.top is not None and con is self.top and self.depth == 0):
             bound = self.bind_params(info, args, kwargs, fr)
